@@ -3,6 +3,7 @@ from __future__ import annotations
 
 from .. import explorer, runner
 from ..vloop import EPS
+from ..ref import framing
 from . import sockcommon as sc
 
 SPEC = "pvmc.props.c16:Scenario"
@@ -349,11 +350,64 @@ def requeue_window_cases(chk):
     return n
 
 
+def two_clients_cases(chk):
+    """Two clients in one process (two consoles, or an old object next to a new one): the bound, the overflow error and
+    what is transmitted are per client.  A holds a messages for its down link, B holds b; B's link comes up."""
+    n = 0
+    for gen in (4, 5):
+        for a_held, b_held in ((6, 5), (10, 3), (0, 10), (9, 9)):
+            w = Scenario({"gen": gen, "open": True})
+            S = w.S
+            sock_b = S.AirTouchSocket(w.loop, "console-b", 9100 + gen, w.reg)
+            w.roots.append(sock_b)
+            w.spawn(sock_b.open_socket())
+            w.loop.settle()
+            status_b = []
+
+            async def send_b(i, w=w, sock_b=sock_b, status_b=status_b):
+                try:
+                    await sock_b.send(w.fam(200 + i)[1], w.policy("I"))
+                    status_b.append("returned")
+                except S.QueueOverflowError:
+                    status_b.append("overflow")
+                except Exception as e:  # noqa: BLE001
+                    status_b.append("raised:" + type(e).__name__)
+            for i in range(a_held):
+                w.submit(w.fam(i), "I")
+            w.loop.settle()
+            for i in range(b_held):
+                w.spawn(send_b(i))
+                w.loop.settle()
+            # B's attempt is the second pending one
+            w.net.resolve(True, index=1)
+            w.loop.settle()
+            n += 1
+            chk.counters["executions"] += 1
+            label = f"at{gen}: client A holds {a_held} for its down link, client B {b_held}; B's link comes up"
+            msg = None
+            st_a = [c["status"] for c in w.calls]
+            if any(x != "returned" for x in st_a) or any(x != "returned" for x in status_b):
+                msg = f"send() results: A {st_a}, B {status_b} (nobody holds more than ten)"
+            else:
+                tb = w.net.conns[-1]
+                frs, residue, err = framing.split(gen, bytes(tb.written))
+                want = [w.fam(200 + i)[4] for i in range(b_held)]
+                got = [f.data for f in frs]
+                if err or residue or got != want:
+                    msg = (f"B's console received {len(got)} frames {[g.hex() for g in got][:12]}; B submitted {len(want)} "
+                           f"({[x.hex() for x in want][:12]})")
+            if msg:
+                chk.violation(f"at{gen}:two-clients", f"{label}: {msg}",
+                              {"kind": "input", "module": "pvmc.props.c16", "gen": gen, "when": f"two-clients-{a_held}-{b_held}"})
+    return n
+
+
 def replay_input(rp):
     c = runner.Check("C16", "quick", 0, "model_checking")
     not_open_cases(c)
     stalled_fault_cases(c)
     requeue_window_cases(c)
+    two_clients_cases(c)
     for s, r in c.violations.items():
         return r["message"]
     return None
@@ -377,6 +431,15 @@ def run(tier, seed, part=None):
                  ({"max_send": 7, "max_adv": 4, "pattern": "B" * 7}, 12, 0),
                  ({"max_send": 6, "max_adv": 2, "pattern": "B" * 6, "stall": True}, 12, 0)]
         cap = 300
+    # scripted families first: each is a handful of complete executions in this process, and one of them (two clients
+    # side by side) is the very thing that would make the explorer's own executions interfere with each other -
+    # state shared between client objects.  If they already fail there is nothing sound left to explore.
+    chk.cov["two_clients_cases"] = two_clients_cases(chk)
+    chk.cov["not_open_cases"] = not_open_cases(chk)
+    chk.cov["stalled_fault_cases"] = stalled_fault_cases(chk)
+    chk.cov["requeue_window_cases"] = requeue_window_cases(chk)
+    if chk.violations:
+        return chk.finish()
     for gen in (4, 5):
         for extra, depth, dev in plans:
             params = dict(gen=gen, **extra)
@@ -384,7 +447,4 @@ def run(tier, seed, part=None):
                                    label=f"at{gen}/{extra}/d{depth}")
             chk.add_explorer(f"at{gen}/{extra['max_send']}sends/{extra['max_adv']}adv" + ("/stall" if extra.get("stall") else ""), SPEC, params, res, {"depth": depth, "deviations": dev, **extra})
     chk.add_audit(SPEC, {"gen": 4, "max_send": 5, "max_adv": 2, "pattern": "BBBBB"}, 6, 0, limit=4000 if tier == "thorough" else 600)
-    chk.cov["not_open_cases"] = not_open_cases(chk)
-    chk.cov["stalled_fault_cases"] = stalled_fault_cases(chk)
-    chk.cov["requeue_window_cases"] = requeue_window_cases(chk)
     return chk.finish()
